@@ -1,4 +1,5 @@
 import DadiVerif.Lemmas.Integrate
+import DadiVerif.Lemmas.Precalc
 /-!
 # C02 — every integration path solves the documented implicit scheme
 
@@ -125,6 +126,31 @@ theorem C02_wiring_drivers :
     ∧ Py.dtCalls.map (fun c => (c.d, c.ax, c.args))
       = (List.range 5).flatMap (fun d => (List.range (d+1)).map (fun ax => (d+1, ax, expectedDtArgs (d+1) ax))) := by
   decide
+
+/-- **precomputed-coefficient drivers = on-the-fly kernels**: for each of the six coefficient sets that the Python
+    constant-parameter drivers assemble (`_one/_two/_three_pops_const_params`, update expressions regenerated from the source
+    and read pointwise), the arrays a, b (+1/dt, added by the C precalc kernel), c are exactly the rows the on-the-fly C kernel
+    builds, on every line, for every grid size ≥ 2, every V, M, delj; boundary terms included. -/
+theorem C02_precalc (d ax : ℕ) (F : PreFormulas) (hF : preFormulas d ax = some F) (xs : Array ℚ) (hN : 2 ≤ xs.size)
+    (V M : ℚ → ℚ) (delj : ℕ → ℚ) (nu dt : ℚ) (z o : Bool) (j : ℕ) (hj : j < xs.size) :
+    let L := mkLine xs V M delj nu z o dt
+    let x : ℕ → ℚ := fun j => xs.getD j 0
+    let bcF := if z = true ∧ M (x 0) ≤ 0 then C.bcFirst nu (M (x 0)) (x 1 - x 0) else 0
+    let bcL := if o = true ∧ M (x (xs.size - 1)) ≥ 0 then C.bcLast nu (M (x (xs.size - 1))) (x (xs.size - 2 + 1) - x (xs.size - 2)) else 0
+    let Cf := preCoef F xs V M delj bcF bcL
+    Cf.a j = L.a j ∧ Cf.b j + 1 / dt = L.b j ∧ Cf.c j = L.c j :=
+  preCoef_eq_line F (preFormulas_ok d ax F hF) xs hN V M delj nu dt z o j hj
+
+/-- …the Python boundary-term formulas and guards, and the Python V and M functions, are the C ones -/
+theorem C02_precalc_pieces (nu Mf Ml dx0 dxl x y z' m1 m2 g h β : ℚ) :
+    Py.pre1D_bcFirst nu Mf Ml dx0 dxl = C.bcFirst nu Mf dx0 ∧ Py.pre1D_bcLast nu Mf Ml dx0 dxl = C.bcLast nu Ml dxl ∧
+    (Py.pre1D_bcFirstGuard Mf Ml = true ↔ Mf ≤ 0) ∧ (Py.pre1D_bcLastGuard Mf Ml = true ↔ Ml ≥ 0) ∧
+    Py.Vfunc x nu β = C.Vfunc_beta x nu β ∧ Py.Vfunc x nu 1 = C.Vfunc x nu ∧
+    Py.Mfunc1D x g h = C.Mfunc1D x g h ∧ Py.Mfunc2D x y m1 g h = C.Mfunc2D x y m1 g h ∧
+    Py.Mfunc3D x y z' m1 m2 g h = C.Mfunc3D x y z' m1 m2 g h := by
+  obtain ⟨a, b, c, d⟩ := py_bc_eq nu Mf Ml dx0 dxl
+  exact ⟨a, b, c, d, Py_Vfunc_eq_beta x nu β, Py_Vfunc_one x nu, Py_Mfunc1D_eq x g h, Py_Mfunc2D_eq x y m1 g h,
+    Py_Mfunc3D_eq x y z' m1 m2 g h⟩
 
 /-- a parameter passed as a constant and the same parameter passed as a function of time returning that constant give
     the same result: for any step function, any duration, any number of steps (induction on the step count) -/
